@@ -26,10 +26,14 @@ structure Cfg where
   /-- `addVote` ignores a straggler precommit when there is no last commit (height 1) instead of
       calling AddVote on a nil VoteSet (PanicSanity) -/
   guardNilLastCommit : Bool := true
+  /-- `defaultSetProposal` keeps a part set that is already there (collected from the header in a
+      +2/3 of votes while the proposal was late); as found it replaced it by an empty one, leaving
+      an assembled `ProposalBlock` without its parts -/
+  proposalKeepsParts : Bool := true
   deriving Repr, DecidableEq
 
-def repaired : Cfg := ⟨true, true⟩
-def asFound : Cfg := ⟨false, false⟩
+def repaired : Cfg := ⟨true, true, true⟩
+def asFound : Cfg := ⟨false, false, false⟩
 
 inductive Step where
   | newHeight | newRound | propose | prevote | prevoteWait | precommit | precommitWait | commit
@@ -266,6 +270,7 @@ def finalizeCommit (n : Node) (h : Int) : Node :=
       if n.proposalParts ≠ some (nameOf blockID) then emit n (.panic "finalizeCommit:parts")
       else if b ≠ nameOf blockID then emit n (.panic "finalizeCommit:hash")
       else if !isValid n b then emit n (.panic "finalizeCommit:invalid-block")
+      else if !n.partsComplete then emit n (.panic "SaveBlock:incomplete-part-set")
       else
         let n := emit n (.commit h b)
         let nextVals := ValSet.incrementAccum ValSet.repaired n.vals0 1
@@ -315,6 +320,7 @@ def setProposal (n : Node) (p : Proposal) (signer : Nat) (sigBad : Bool) : Node 
   else if Step.commit ≤ n.step then n
   else if p.polRound ≠ -1 ∧ (p.polRound < 0 ∨ p.round ≤ p.polRound) then n
   else if !proposalSigOk n signer sigBad then n
+  else if n.cfg.proposalKeepsParts ∧ n.proposalParts.isSome then { n with proposal := some p }
   else { n with proposal := some p, proposalParts := some p.block, partsComplete := false }
 
 /-- all parts of `block` arrive (`addProposalBlockPart` for each; only completion matters) -/
